@@ -2,7 +2,10 @@
 
 package sftp
 
-import "sync"
+import (
+	"context"
+	"sync"
+)
 
 // vPipeline runs the real packet manager (controller goroutine), the real
 // workerChan dispatcher and real sftpServerWorker goroutines (pool of 2 rw
@@ -62,3 +65,40 @@ func vIDs(n int) []uint32 {
 	return ids
 }
 
+
+// vRSPipeline: the same for the request server - the real dispatcher and real
+// packetWorker goroutines (2 + 1), no controller; responses in completion order.
+func vRSPipeline(rs *RequestServer, reqs []requestPacket) [][]byte {
+	cap := &vCapture{}
+	rs.pktMgr = vNewPktMgr(cap)
+	var wg sync.WaitGroup
+	runWorker := func(ch chan orderedRequest) {
+		wg.Add(1)
+		go func() {
+			defer wg.Done()
+			if err := rs.packetWorker(context.Background(), ch); err != nil {
+				vAssert(false, "worker returned an error")
+			}
+		}()
+	}
+	pktChan := rs.pktMgr.workerChan(runWorker)
+	for _, r := range reqs {
+		pktChan <- rs.pktMgr.newOrderedRequest(r)
+	}
+	close(pktChan)
+	wg.Wait()
+	vQuiesce()
+	for len(rs.pktMgr.responses) > 0 {
+		r := <-rs.pktMgr.responses
+		cap.sendPacket(r.(orderedResponse).responsePacket)
+	}
+	return cap.pkts
+}
+
+// vHFile: a handler object (reader, writer, closer) backed by a model file, so
+// that calls in flight at Close are counted the same way
+type vHFile struct{ f *vMFile }
+
+func (h vHFile) ReadAt(b []byte, off int64) (int, error)  { return h.f.ReadAt(b, off) }
+func (h vHFile) WriteAt(b []byte, off int64) (int, error) { return h.f.WriteAt(b, off) }
+func (h vHFile) Close() error                             { return h.f.Close() }
